@@ -235,6 +235,8 @@ func checkC03(p *Program, r *Report) {
 	}
 	// ---- session typestate for the stored prefix and tail
 	checkSessionTypestate(p, r, "C03.session-valid")
+	// ---- keys are bytes (shared with C10): exactness for arbitrary query strings includes bytes >= 0x80
+	checkNoRuneWalk(p, r, "C03.bytes-not-runes", p.Method(p.Trie, "SlimTrie", "Get"), getID, p.Method(p.Trie, "SlimTrie", "RangeGet"), p.Method(p.Trie, "SlimTrie", "Search"), p.Trie.Func("NewSlimTrie"))
 }
 
 // dependsOnSessionField: v is computed (within a few steps) from a load of the given session field.
@@ -256,6 +258,28 @@ func dependsOnSessionField(v ssa.Value, field string, d int) bool {
 				return true
 			}
 		}
+		// a helper that is handed the session and reads the field itself
+		if g := calleeOf(x); g != nil && trieScope(g) && len(g.Blocks) > 0 {
+			passes := false
+			for _, a := range x.Call.Args {
+				if isSessionPtr(a) {
+					passes = true
+				}
+			}
+			if passes {
+				reads := false
+				instrsOf(g, func(_ *ssa.BasicBlock, in ssa.Instruction) {
+					if ld, ok := in.(*ssa.UnOp); ok {
+						if _, fv, fa := fieldOfAddr(ld.X); fa != nil && fv.Name() == field && isSessionPtr(fa.X) {
+							reads = true
+						}
+					}
+				})
+				if reads {
+					return true
+				}
+			}
+		}
 	case *ssa.Convert:
 		return dependsOnSessionField(x.X, field, d+1)
 	case *ssa.Slice:
@@ -273,3 +297,7 @@ func dependsOnSessionField(v ssa.Value, field string, d int) bool {
 }
 
 func init() { checks["C03"] = checkC03 }
+
+func init() {
+	controlFns["C03"] = func(fx *Program, r *Report) { controlNoRuneWalk(fx, r, "C03.bytes-not-runes") }
+}
